@@ -442,3 +442,87 @@ def lockstep(ctx, monitors, want=None, corr_name='lock-step: registry model trac
         j = min(40, len(scen) - 1)
         ctx.samples = [{'scenario': scen[j].json(), 'impl_trace': [pretty(l) for l in impl[j]['trace']][:60]}]
     return scen, impl
+
+
+# ------------------------------------------------------------------------------------------
+# a real delivery on the mutating thread at every INSTRUCTION boundary of register / unregister /
+# unregister_signal (harness/src/bin/p_nested_reg.rs; fork per boundary; hook-independent)
+REG_CONFIGS = ([('r', str(n), p) for n in (0, 1, 2) for p in 'ihs'] + [('u0', str(n), p) for n in (1, 2) for p in 'ihs'] +
+               [('u1', '2', p) for p in 'ihs'] + [('x', str(n), p) for n in (1, 2) for p in 'ihs'])
+REG_NAMES = {'r': 'register', 'u0': 'unregister(first action)', 'u1': 'unregister(second action)', 'x': 'unregister_signal',
+             'i': 'ignored before', 'h': 'a plain handler before', 's': 'a SA_SIGINFO handler before'}
+REG_KINDS = {'C01': ('AFTER', 'DROP', 'CRASH'), 'C02': ('SNAPSHOT', 'AFTER', 'CRASH'), 'C03': ('BLOCKED', 'CRASH'), 'C04': ('CHAIN',), 'C18': ('BLOCKED',)}
+
+
+def reg_one(cfg, konly=None, timeout=240):
+    cmd = [common.bin_path('p_nested_reg')] + list(cfg) + ([str(konly)] if konly else [])
+    rc, out, _ = common.sh(cmd, timeout=timeout)
+    rows, end = [], None
+    for l in out.split('\n'):
+        p = l.split(' ', 2)
+        if p[0] == 'K' and len(p) == 3:
+            verdict, _, rest = p[2].partition(' | ')
+            kinds = sorted(set(part.split(' ', 1)[0] for part in verdict[4:].split('; '))) if verdict.startswith('BAD') else []
+            rows.append({'k': int(p[1]), 'kinds': kinds, 'verdict': verdict, 'observed': rest})
+        elif p[0] == 'X' and len(p) == 3:
+            rows.append({'k': int(p[1]), 'kinds': ['BLOCKED' if p[2].strip() == 'signal 14' else 'CRASH'], 'observed': '',
+                         'verdict': 'the delivery (or the call after it) never came back: the handler waited for something the interrupted call holds (killed by the 3 s alarm)'
+                         if p[2].strip() == 'signal 14' else 'the process died: ' + p[2]})
+        elif p[0] == 'P':
+            rows.append({'k': int(p[1]) if len(p) > 1 and p[1].isdigit() else 0, 'kinds': ['CRASH'], 'verdict': 'panic: ' + l, 'observed': ''})
+        elif p[0] == 'E':
+            end = int(p[1])
+    return {'cfg': cfg, 'rows': rows, 'end': end, 'rc': rc, 'tail': out[-300:]}
+
+
+def reg_sweep(ctx, want):
+    from concurrent.futures import ThreadPoolExecutor
+    if not ctx.harness(['p_nested_reg']):
+        return
+    with ThreadPoolExecutor(max_workers=12) as ex:
+        results = list(ex.map(reg_one, REG_CONFIGS))
+    hits, total, incomplete, per, outcomes = {}, 0, [], {}, {}
+    for res in results:
+        m, n, pv = cfg = res['cfg']
+        name = '%s with %s action(s) registered, the signal %s' % (REG_NAMES[m], n, REG_NAMES[pv])
+        per['/'.join(cfg)] = res['end']
+        if res['end'] is None:
+            incomplete.append('%s: %s' % (name, res['tail']))
+        confirmed = 0
+        for row in res['rows']:
+            total += 1
+            ctx.evaluations += 1
+            outcomes.setdefault('/'.join(cfg), set()).add(row['observed'].split(' | ')[0])
+            if row['kinds'] == ['BLOCKED']:
+                confirmed += 1
+                if confirmed <= 3:
+                    again = reg_one(cfg, konly=row['k'], timeout=60)
+                    if not any(r2['k'] == row['k'] and r2['kinds'] == ['BLOCKED'] for r2 in again['rows']):
+                        hits['unconfirmed-stall'] = hits.get('unconfirmed-stall', 0) + 1
+                        continue
+            for kind in row['kinds']:
+                hits[kind] = hits.get(kind, 0) + 1
+                if kind in want and hits[kind] <= 3:
+                    ctx.violation({'monitor': 'regsweep-' + kind, 'mutation': m, 'actions': n, 'prev': pv, 'k': row['k']},
+                                  '%s: SIGUSR1 raised on the calling thread after %d instructions of the call: %s [%s]' % (name, row['k'], row['verdict'], row['observed']),
+                                  {'reg_sweep': {'mutation': m, 'actions': n, 'prev': pv, 'k': row['k']}, 'observed': row})
+    ctx.correspondence('instruction-level registry sweep ran to the end in all %d configurations' % len(REG_CONFIGS), not incomplete, incomplete[:3])
+    ctx.coverage['instruction_registry_sweep'] = {'configurations': len(REG_CONFIGS), 'boundaries': total, 'complaints': hits, 'boundaries_per_configuration': per,
+                                                  'configurations_where_both_lists_were_seen': sum(1 for v in outcomes.values() if len(v) >= 2)}
+    ctx.coverage['rule_registry_sweep'] = ('register / unregister / unregister_signal single-stepped (trap flag), a REAL SIGUSR1 raised on the same thread at every instruction '
+                                           'boundary (fork per boundary), 0-2 actions registered before, the signal ignored / handled by a plain / by a SA_SIGINFO handler before the library '
+                                           'took it over: the nested delivery runs the list from before or from after the call, a later one the list after it, the previous handler exactly '
+                                           'once first with its own convention, captures dropped exactly when removed and never while running, nothing blocks')
+    ctx.traces += total - sum(hits.values())
+
+
+def reg_replay(ctx, c, want):
+    n = c['reg_sweep']
+    ctx.harness(['p_nested_reg'])
+    res = reg_one((n['mutation'], str(n['actions']), n['prev']), konly=n['k'], timeout=60)
+    bad = False
+    for row in res['rows']:
+        print('k=%d %s | %s' % (row['k'], row['verdict'], row['observed']))
+        if row['k'] == n['k'] and any(k in want for k in row['kinds']):
+            print('REPRODUCED:', row['verdict']); bad = True
+    return 1 if bad else 0
